@@ -63,17 +63,71 @@ G_Zone == {
     Rec(N("d"), "IN", "TXT", "300", <<S("@"), S("$x"), S("y$")>>),
     Rec(N("d"), "IN", "TXT", "300", <<S("two\nlines")>>) }
 
-G_Other == {
+\* classes other than IN: "omitted class ... values are default to the last explicitly stated
+\* values" (RFC 1035 5.1) shows only where several records of a non-IN class follow each other
+BIND == <<"bind">>
+G_Chaos == {
+    Rec(BIND, "CH", "SOA", "0", <<BIND, <<"hostmaster", "bind">>, S("1"), S("28800"), S("7200"), S("604800"), S("86400")>>),
+    Rec(BIND, "CH", "NS", "0", <<<<"localhost">>>>),
     Rec(<<"version", "bind">>, "CH", "TXT", "0", <<S("hickory")>>),
-    Rec(N("hs"), "HS", "TXT", "300", <<S("hesiod")>>) }
+    Rec(<<"hostname", "bind">>, "CH", "TXT", "0", <<S("ns1.example.com")>>),
+    Rec(<<"authors", "bind">>, "CH", "TXT", "60", <<S("a b"), S("c")>>),
+    Rec(<<"id", "server">>, "CH", "TXT", "0", <<S("ns1")>>),
+    Rec(<<"id", "server">>, "CH", "A", "0", <<S("192.0.2.1")>>),
+    Rec(<<"ch-mx", "bind">>, "CH", "MX", "60", <<S("1"), <<"localhost">>>>) }
+G_Hesiod == {
+    Rec(N("hs"), "HS", "TXT", "300", <<S("hesiod")>>),
+    Rec(N("hs"), "HS", "TXT", "300", <<S("second")>>),
+    Rec(N2("passwd", "hs"), "HS", "TXT", "300", <<S("root:*:0:0")>>),
+    Rec(N2("group", "hs"), "HS", "MX", "60", <<S("3"), N("hs")>>) }
+G_Other == G_Chaos \cup G_Hesiod
 
-G_All == G_Zone \cup G_Other
+\* <character-string> boundary lengths (RFC 1035 3.3: a length octet + up to 255 octets): 0, 1, 254
+\* and 255 octets must load -- quoted, unquoted and inside parentheses
+Fill(n) == Cat([i \in 1..n |-> IF i % 10 = 0 THEN "0" ELSE IF i % 2 = 0 THEN "b" ELSE "a"])
+S254 == Fill(254)
+S255 == Fill(255)
+Q255 == Cat([i \in 1..255 |-> IF i % 64 = 0 THEN " " ELSE "c"])       \* needs quotes
+G_Bounds == {
+    Rec(N("l255"), "IN", "TXT", "300", <<S(S255)>>),
+    Rec(N("l255"), "IN", "TXT", "300", <<S("x"), S(S255), S(""), S(S254)>>),
+    Rec(N("l254"), "IN", "TXT", "60", <<S(S254), S("y")>>),
+    Rec(N("q255"), "IN", "TXT", "60", <<S(Q255)>>),
+    Rec(N("l255"), "IN", "HINFO", "300", <<S(S255), S("z")>>),
+    Rec(N("l255"), "IN", "NAPTR", "300", <<S("1"), S("1"), S("u"), S(S255), S(Q255), <<>>>>),
+    Rec(N("l255"), "IN", "CAA", "300", <<S("0"), S("issue"), S(S255)>>) }
+
+\* labels with hyphens and digits in every position but the first (RFC 2181 11), in owner,
+\* $ORIGIN and RDATA-name positions; a label of 63 octets
+L63 == Cat([i \in 1..63 |-> IF i % 7 = 0 THEN "-" ELSE "k"])
+G_Labels == {
+    Rec(N("edge-"), "IN", "A", "300", <<S("192.0.2.1")>>),
+    Rec(N("edge-"), "IN", "MX", "300", <<S("10"), <<"mx-", "example", "net">>>>),
+    Rec(N("r3---sn"), "IN", "CNAME", "300", <<N2("ab--", "edge-")>>),
+    Rec(N2("_a-b", "_-"), "IN", "SRV", "300", <<S("0"), S("0"), S("53"), N("r3---sn")>>),
+    Rec(N("123"), "IN", "NS", "300", <<N2("0", "7-")>>),
+    Rec(N("first-.last"), "IN", "PTR", "300", <<N("a-.-b")>>),
+    Rec(N(L63), "IN", "NS", "60", <<N(L63)>>),
+    Rec(N2("x", "edge-"), "IN", "TXT", "300", <<S("under the hyphen origin")>>) }
+\* an underscore inside a label that does not start with one (legal, RFC 2181 11; kept apart)
+G_Und == {
+    Rec(N("a_b"), "IN", "A", "300", <<S("192.0.2.1")>>),
+    Rec(N("w_2"), "IN", "AAAA", "300", <<S("::1")>>),
+    Rec(N("u"), "IN", "NS", "300", <<N2("ns_1", "dc_2")>>),
+    Rec(N("trail_"), "IN", "TXT", "300", <<S("t")>>) }
+
+G_All == G_Zone \cup G_Other \cup G_Bounds \cup G_Labels
+G_ZoneB == G_Zone \cup G_Bounds \cup G_Labels
+G_AllUnd == G_Zone \cup G_Und
+G_NonIN == G_Other
+G_Core == G_Zone \cup G_Other
+G_BL == G_Bounds \cup G_Labels
 G_Soa == {r \in G_Zone : r.t = "SOA"}
 G_None == {}
 G_AllOpt == {"$ORIGIN-rel", "rdname-at", "rdname-rel-svcb", "str-quoted-in-paren", "str-unquoted-escape",
              "str-unquoted-dollar", "paren-before-type"}
 
-G_Origins == {<<"sub", "example", "com">>, <<"example", "net">>, <<>>, Apex, <<"com">>}
+G_Origins == {<<"sub", "example", "com">>, <<"example", "net">>, <<>>, Apex, <<"com">>, <<"edge-", "example", "com">>, <<"bind">>}
 G_TtlDirs == {"300", "3600", "0", "60"}
 G_Seps == {" ", "\t", "  ", " \t"}
 G_PSeps == {" ", "\n", "\n\t", " ; c\n ", "\r\n  ", "\t; ( \" )\n\t"}
